@@ -245,6 +245,28 @@ partial def showFieldsT : Fields → List Val → List String
   | _, vs => vs.map showVal
 end
 
+/- Output form of byte-kinded slices, directed by the type DEFINITION: the harness
+writes `(y hex)` for a slice whose element type is the unnamed `uint8` (`[]byte`,
+a defined type over it, with or without tag option) and a list of `(u n)` for a
+slice of a defined byte type (`[]MyU8`); both are `.vslice (.uint 8)` codecs. -/
+mutual
+partial def toWireD : TyDef → Val → Val
+  | .named _ t, v => toWireD t v
+  | .slice (.basic (.uint 8)), .slice vs =>
+      .bytes (vs.map fun v => match v with | .uint n => n.toUInt8 | _ => 0)
+  | .slice t, .slice vs => .slice (vs.map (toWireD t))
+  | .ptr t, .ptr (some v) => .ptr (some (toWireD t v))
+  | .map k v, .map (some es) => .map (some (es.map fun e => (toWireD k e.1, toWireD v e.2)))
+  | .struct _ fs, .struct vs =>
+      .struct (toWireFields (fs.filter fun f => f.2.1 && f.2.2.1 != "-") vs)
+  | _, v => v
+partial def toWireFields : FieldDefs → List Val → List Val
+  | (_, _, _, _, t) :: r, v :: vs => toWireD t v :: toWireFields r vs
+  | _, vs => vs
+end
+
+def showValTD (d : TyDef) (_ : Ty) (v : Val) : String := showVal (toWireD d v)
+
 /- reorder the map entries of `v` to the order in which they occur in `tmpl`
 (the model's decode of the implementation's bytes), matching entries by
 normalised key: the encoding of a value with multi-entry maps is fixed only up
